@@ -874,6 +874,17 @@ def run(ctx, load):
     ctx.borrow('C07.filter-match', 1, lambda: check_predicates(Pm, ctx), only=lambda o: o['key'] == 'eq')
     evals.report_type_cmp(Pm, ctx, 'C07.filter-match', site, what=('cmp',))
     ctx.floor('C07.filter-match', 2)
+    # a throw formats its message before it jumps: if the formatter itself raises on a well-formed message (a literal `%%`, say) the handlers
+    # see that exception instead of the thrown one (print_to_with evaluated, shared with C14)
+    from .rules_c14 import check_print
+    Pp = load(None, 'default')
+    ctx.borrow('C07.message-formatting', 8, lambda: check_print(Pp, ctx))
+    # every run of a thread gets its own exception record, created before the user function and deleted after it (shared with C06.teardown)
+    from . import rules_c06
+    from .rules_c06 import check_teardown
+    Pt = load(rules_c06.UNITS, 'default', rules_c06.WITNESS)
+    ctx.borrow('C07.record-per-thread-run', 1, lambda: check_teardown(Pt, ctx), only=lambda o: o['key'] in ('Thread_Init_Run', 'Exception_Del', 'Exception_New') or 'Thread' in o['key'] or 'Exception' in o['key'])
+    ctx.config = 'default'
 
 
 EXPLANATION = (
